@@ -184,6 +184,7 @@ type FnVC struct {
 	roCell          map[vkey]Val // value of single-assignment captured variables
 	privInfo        map[*ssa.Alloc]*privCell
 	privRefs        map[*ssa.Alloc]Term // refs of private cells (captured variables nothing but this function's closures can reach)
+	privFree        []privFreeRec       // private captured variables of a closure under verification
 	epochPrev       map[int]epochOrigin
 	// preserveLocalsOnHavoc is set while a *call* is havocked (callees cannot touch non-escaping locals);
 	// it is off for loop-head havoc, where the loop body itself may write them.
